@@ -166,3 +166,12 @@ def finite(*xs):
         if not np.all(np.isfinite(np.asarray(x, dtype=float))):
             return False
     return True
+
+
+def fuzz_cells(target, shards, runs):
+    """Thorough-tier cells that run an atheris campaign (vp/fuzz.py), sharded by
+    seed; each starts from an empty corpus in a fresh directory."""
+    if not os.path.isdir(os.path.join(VERIF, ".deps", "atheris")):
+        return []          # setup.sh could not install atheris: tier unavailable
+    return [{"name": "fuzz-%s-%d" % (target, i), "fuzz": target, "runs": runs, "cost": 1e7}
+            for i in range(shards)]
